@@ -24,6 +24,19 @@ PK = {"PosOnly": inspect.Parameter.POSITIONAL_ONLY, "PosOrKw": inspect.Parameter
       "VarKw": inspect.Parameter.VAR_KEYWORD}
 
 
+from decimal import Decimal as _Decimal
+
+PLAIN = {
+    "int": (int, ("Scalar", ("KInt",), None, [], [], [])),
+    "str": (str, ("Scalar", ("KStr",), None, [], [], [])),
+    "bool": (bool, ("Scalar", ("KBool",), None, [], [], [])),
+    "none": (None, ("NoneV", None)),
+    "decimal": (_Decimal, ("Scalar", ("KDecimal",), None, [], [], [])),          # signature mode: no coercion
+    "optint": (typing.Optional[int], ("UnionV", [("Scalar", ("KInt",), None, [], [], []), ("NoneV", None)])),
+    "liststr": (typing.List[str], ("ListV", ("Scalar", ("KStr",), None, [], [], []), [], [], None)),
+}
+
+
 class BodyError(Exception):
     def __init__(self, n: int):
         super().__init__(n)
@@ -82,9 +95,13 @@ def gen_deco(rng: random.Random):
     params = []
     for i, k in enumerate(kinds):
         ann = Some(param_validator(rng)) if rng.random() < 0.65 else None
+        plain = None
+        if ann is not None and rng.random() < 0.3:      # a plain type hint, resolved by the library itself
+            plain = rng.choice(sorted(PLAIN))
+            ann = Some(PLAIN[plain][1])
         ovr = Some(param_validator(rng)) if rng.random() < 0.2 else None
         has_default = k in ("PosOnly", "PosOrKw", "KwOnly") and rng.random() < 0.35
-        params.append({"name": i, "kind": k, "ann": ann, "ovr": ovr, "default": has_default})
+        params.append({"name": i, "kind": k, "ann": ann, "ovr": ovr, "default": has_default, "plain": plain})
     # defaults: once a positional parameter has one, the following positionals need one too
     seen = False
     for p in params:
@@ -95,9 +112,13 @@ def gen_deco(rng: random.Random):
     if rng.random() < 0.3:
         ignore.append(50 + rng.randrange(3))            # a name that can only be a **kwargs key
     ret_ann = Some(param_validator(rng)) if rng.random() < 0.5 else None
+    ret_plain = None
+    if ret_ann is not None and rng.random() < 0.35:
+        ret_plain = rng.choice(sorted(PLAIN))
+        ret_ann = Some(PLAIN[ret_plain][1])
     ret_ovr = Some(param_validator(rng)) if rng.random() < 0.15 else None
     return {"params": params, "ignore": ignore, "ignore_return": rng.random() < 0.2, "ret_ann": ret_ann, "ret_ovr": ret_ovr,
-            "is_async": rng.random() < 0.4}
+            "is_async": rng.random() < 0.4, "ret_plain": ret_plain}
 
 
 def checked_validator(deco, p):
@@ -197,7 +218,10 @@ def build(c: SigCase, rng=None):
     plist = []
     for p in deco["params"]:
         ann = inspect.Parameter.empty
-        if p["ann"] is not None:
+        if p["ann"] is not None and p.get("plain"):
+            ann = PLAIN[p["plain"]][0]
+            vobjs[(p["name"], "ann")] = ctx.validator(p["ann"].x)      # an equal validator, for the specification only
+        elif p["ann"] is not None:
             vo = ctx.validator(p["ann"].x)
             vobjs[(p["name"], "ann")] = vo
             ann = typing.Annotated[typing.Any, vo]
@@ -208,7 +232,11 @@ def build(c: SigCase, rng=None):
         default = inspect.Parameter.empty if not p["default"] else ("default", p["name"])
         plist.append(inspect.Parameter(pname(p["name"]), PK[p["kind"]], annotation=ann, default=default))
     ret = inspect.Signature.empty
-    if deco["ret_ann"] is not None:
+    ret_spec = None
+    if deco["ret_ann"] is not None and deco.get("ret_plain"):
+        ret = PLAIN[deco["ret_plain"]][0]
+        ret_spec = ctx.validator(deco["ret_ann"].x)
+    elif deco["ret_ann"] is not None:
         ret = typing.Annotated[typing.Any, ctx.validator(deco["ret_ann"].x)]
     if deco["ret_ovr"] is not None:
         overrides[SG.RETURN_OVERRIDE_KEY] = ctx.validator(deco["ret_ovr"].x)
@@ -233,14 +261,23 @@ def build(c: SigCase, rng=None):
     wrapped = SG.validate_signature(raw, ignore_args={pname(i) for i in deco["ignore"]},
                                     ignore_return=deco["ignore_return"], overrides=overrides)
     c.vmap = vobjs
-    c.ret_v = overrides.get(SG.RETURN_OVERRIDE_KEY) or (typing.get_args(ret)[1] if ret is not inspect.Signature.empty else None)
+    c.ret_v = overrides.get(SG.RETURN_OVERRIDE_KEY) or ret_spec or (typing.get_args(ret)[1] if ret is not inspect.Signature.empty else None)
     if deco["ignore_return"]:
         c.ret_v = None
     return ctx, sig, raw, wrapped, rec
 
 
+def install_who_fallback(ctx) -> None:
+    """Validators the resolver derived from plain hints are not the case's own objects: read them back as terms."""
+    from . import C07
+    reader = object.__new__(C07.Built)
+    reader.ctx, reader.ct = ctx, ctx.ct
+    ctx.who_fallback = reader.obj_term
+
+
 def observe(c: SigCase, rng=None) -> None:
     ctx, sig, raw, wrapped, rec = build(c, rng)
+    install_who_fallback(ctx)
     c.ctx, c.sig, c.raw, c.wrapped, c.rec = ctx, sig, raw, wrapped, rec
     c.pargs = [to_py(a, ctx.ct) for a in c.args]
     c.pkwargs = {pname(p.a.k): to_py(p.b, ctx.ct) for p in c.kwargs}
